@@ -445,7 +445,7 @@ func extractEOF(c *core.Ctx, R string, m *scanModel, pkgRel, recv string) ([]eof
 			return false
 		}
 		if recvOf(f) == recv && f.Pkg == next.Pkg {
-			switch f.Name() {
+			switch pinnedBare(f) {
 			case "processingFoundLexeme", "found", "shiftFound", "Next":
 				return false
 			}
